@@ -19,7 +19,7 @@ RULE = ('case = (tree with hidden files/directories, symlinked files/directories
         'get_skipped() == files visited - files returned; non-trivial = the tree has a hidden or symlinked directory and the result '
         'is neither empty nor all files') % ' '.join(FLAG_NAMES)
 ASSUMPTIONS = ['the single-name / single-path matchers fnmatch() and globmatch() are trusted here (judged by C01-C03, C07)',
-               'patterns with a leading separator (internal anchor stripping) are not generated']
+               'patterns with a leading separator are only used in the anchoring clause (every piece anchored == the unanchored text without MATCHBASE)']
 
 
 def ref_walk(root, fpat, epat, flags):
@@ -144,6 +144,49 @@ def check_case(root, spec, fpat, epat, names, out, case_extra=None):
         out.violation(dict(case, problem='get_skipped() is not visited - returned', skipped=sk, visited=visited, returned=len(got)),
                       bucket=('skipped',))
         return None
+    # anchoring: under FILEPATHNAME / DIRPATHNAME a piece written with a leading separator is "a normal path pattern that is anchored to the
+    # base path" (docs, MATCHBASE section): with every piece anchored the result is the one of the unanchored text without MATCHBASE
+    fp_on, dp_on = 'FILEPATHNAME' in names and bool(fpat), 'DIRPATHNAME' in names and bool(epat)
+    if fp_on or dp_on:
+        marker = '-' if 'MINUSNEGATE' in names else '!'
+
+        def anchored(text):
+            if any(ch in text for ch in '([{\\'):
+                return None
+            res = []
+            for piece in text.split('|'):
+                neg = piece.startswith(marker)
+                body = piece[1:] if neg else piece
+                if not body or body.startswith('/'):
+                    return None
+                res.append((marker if neg else '') + '/' + body)
+            return '|'.join(res)
+        f2 = anchored(fpat) if fp_on else fpat
+        e2 = anchored(epat) if dp_on else epat
+        if f2 is not None and e2 is not None:
+            try:
+                with util.watchdog(15), util.ScandirCounter(6000):
+                    if 'MATCHBASE' in names:
+                        w0 = WM.WcMatch(root, fpat, epat, flags=fl & ~WM.MATCHBASE)
+                        base0, sk0 = [os.path.relpath(p_, root) for p_ in w0.match()], w0.get_skipped()
+                    else:
+                        base0, sk0 = got, sk
+                    try:
+                        w1 = WM.WcMatch(root, f2, e2, flags=fl)
+                        got1, sk1 = [os.path.relpath(p_, root) for p_ in w1.match()], w1.get_skipped()
+                    except util.HarnessBudget:
+                        raise
+                    except Exception as e:
+                        got1, sk1 = ['<%s>' % type(e).__name__], None
+                out.evaluations += 1
+                out.stats['anchored_cases'] += 1
+                if collections.Counter(got1) != collections.Counter(base0) or sk1 != sk0:
+                    out.violation(dict(case, problem='pieces anchored with a leading separator do not give the result of the unanchored text without MATCHBASE',
+                                       anchored=[f2, e2], got=sorted(got1)[:12], want=sorted(base0)[:12], skipped=[sk1, sk0]),
+                                  size=len(fpat) * 10 + len(epat) * 10 + len(names), bucket=('anchor', 'MATCHBASE' in names))
+                    return None
+            except util.HarnessBudget:
+                out.stats['budget_skipped'] += 1
     # the same walk with a bytes root and bytes patterns (an empty pattern given as b'' and as None)
     try:
         with util.watchdog(15), util.ScandirCounter(6000):
